@@ -48,6 +48,11 @@ SUGAR = [
     ("S: a=A b=A?; A: x+ | y;", ["y", "xxy", "xx", "yxx"]),
     ("S: items=Item+[c]; Item: k=x v?=y;", ["x", "xycx", "xcxycxy"]),
     ("S: x+! x*;", ["x", "xxx"]),
+    ("S: first=x many?=y* opt?=c? x;", ["xx", "xyx", "xcx", "xyycx"]),
+    ("S: a?=A* b?=A? c;\nA: x;", ["c", "xc", "xxxc"]),
+    # a rule defined in several places with another rule in between (alternative indices run on)
+    ("S: E+;\nE: x B;\nB: y;\nE: c;\nB: c y | c c;", ["xy", "c", "xcy", "xccc", "cxy"]),
+    ("S: A B;\nA: x;\nB: y;\nA: c;\nB: c;\nA: y y;", ["xy", "cc", "yyy", "xc"]),
 ]
 SUGAR_TERMS = '\nterminals\nx: "x";\ny: "y";\nc: "c";\n'
 
@@ -100,6 +105,10 @@ def make_actions(g, names, rng, mode):
         named.sort()
         return "A%d(%s;%s)" % (prod.prod_id, ",".join(render(n) for n in nodes),
                                ",".join("%d=%s" % (i, render(v)) for i, v in named))
+    def rec_k(k):
+        def r(context, nodes, **kw):
+            return rec(context, nodes, **kw).replace("(", "#%d(" % k, 1)
+        return r
     acts = {}
     for name in names:
         m = mode[name]
@@ -107,16 +116,45 @@ def make_actions(g, names, rng, mode):
             acts[name] = rec
         elif m == 2:
             k = len(g.get_productions(name))
-            acts[name] = [rec] * k
+            acts[name] = [rec_k(i) for i in range(k)]
     return acts
 
 
-def term_action(num):
+ALT = __import__("re").compile(r"A(\d+)#(\d+)\(")
+
+
+def check_alternatives(res, case, g, rendered):
+    """The action called for production p must be element `ordinal of p among the productions of its
+    symbol` of the action list (computed here from the production order, not from prod_symbol_id)."""
+    ordinal = {}
+    seen = {}
+    for p in g.productions:
+        ordinal[p.prod_id] = seen.get(p.symbol.fqn, 0)
+        seen[p.symbol.fqn] = ordinal[p.prod_id] + 1
+    for m in ALT.finditer(rendered):
+        p, k = int(m.group(1)), int(m.group(2))
+        if ordinal[p] != k:
+            res["violations"].append({"kind": "wrong-alternative-action-called", "case": case,
+                                      "observed": "production %d handled by list element %d" % (p, k),
+                                      "expected": ordinal[p]})
+            return
+    return ALT.sub(lambda m: "A%s(" % m.group(1), rendered)
+
+
+class FalsyStr(str):
+    """A result that is falsy but not None (like 0, '' or [])."""
+
+    def __bool__(self):
+        return False
+
+
+def term_action(num, falsy=False):
     def mk(t):
         tid = num.term(t)
 
         def act(context, value):
-            return "U%d:%d-%d" % (tid, context.start_position, context.end_position)
+            s_ = "U%d:%d-%d" % (tid, context.start_position, context.end_position)
+            return FalsyStr(s_) if falsy else s_
         return act
     return {t.name: mk(t) for t in num.terms[1:]}
 
@@ -169,12 +207,17 @@ def run_unit(u):
                     names = spec.nonterminals()
                 else:
                     names = [n.name for n in g.nonterminals.values()
-                             if n.name in ("S", "A", "Item")]
+                             if n.name in ("S", "A", "Item", "E", "B")]
                 mode = {n: rng.choice([0, 1, 1, 2]) if variant else 1 for n in names}
                 if spec is None and variant == 2:
                     mode = {n: 0 for n in names}
+                if spec is None and variant == 1:
+                    mode = {n: 2 for n in names}      # per-alternative action lists everywhere
                 acts = make_actions(g, names, rng, mode)
-                acts.update(term_action(num))
+                # sugar variant 0: element results are falsy but not None (the built-ins must keep them);
+                # not combined with ?= (whose documented meaning is the truthiness)
+                falsy = spec is None and variant == 0 and "?=" not in gtxt
+                acts.update(term_action(num, falsy))
                 p1 = Parser(g, actions=acts)
                 p2 = Parser(g, actions=acts, build_tree=True)
                 gp = GLRParser(g, actions=acts)
@@ -201,6 +244,9 @@ def run_unit(u):
                     continue
                 res["evaluations"] += 1
                 st["sentences"] += 1
+                r1n = check_alternatives(res, case, g, r1)
+                if r1n is None:
+                    continue
                 try:
                     tree = p2.parse(text)
                     r2 = render(p2.call_actions(tree))
@@ -223,12 +269,18 @@ def run_unit(u):
                     res["violations"].append({"kind": "glr-route-raises", "case": case,
                                               "observed": type(e).__name__ + ": " + str(e)[:100]})
                 q = b.add("eval", enc_tree(num, tree))
-                checks.append((case, r1, q, tree_sexp(num, tree)))
+                checks.append((case, r1n, q, tree_sexp(num, tree)))
             out = b.run()
             st["traces"] += len(checks)
             for case, r1, q, sx in checks:
                 if out[q] != "eval " + r1:
-                    res["disagreements"].append({"case": case, "model": out[q][:300], "impl": r1[:300]})
+                    if spec is None:
+                        # the model's built-ins are the documented semantics (proved for every length):
+                        # all routes agreeing on something else is a failure of the property itself
+                        res["violations"].append({"kind": "built-in-action-result-differs-from-documented",
+                                                  "case": case, "observed": r1[:300], "expected": out[q][5:305]})
+                    else:
+                        res["disagreements"].append({"case": case, "model": out[q][:300], "impl": r1[:300]})
                 if sx.count("(N") >= 3:
                     res["nontrivial"].append(h16(case))
                 if ";" in r1 and "=" in r1:
